@@ -5,6 +5,7 @@ import (
 	"fmt"
 	"runtime"
 	"strings"
+	"sync"
 	"time"
 
 	"verifh/internal/bfs"
@@ -65,6 +66,11 @@ func alphabet(keys []string, thorough bool) []kvh.Op {
 	return ops
 }
 
+var (
+	knownMu   sync.Mutex
+	knownSeen = map[string]bool{}
+)
+
 func main() {
 	run := ev.Parse("C03", "model_checking")
 	keys := []string{"a", "b", "/c"}
@@ -88,16 +94,28 @@ func main() {
 			defer func() { pool <- e }()
 			m := kvh.NewModel()
 			ds := []*kvh.Driver{kvh.NewDriver("inmem", e.im.Fresh(), base), kvh.NewDriver("redis", e.rd.Fresh(), base)}
+			// A listed known finding (the Redis backend strips leading '/': "/c" and "c" alias) does not end the
+			// exploration behind it: it is recorded, the aliased key is no longer observed on that backend for
+			// the rest of the history, and the search goes on - other defects around slash-prefixed keys stay visible.
+			obs := map[string][]string{"inmem": obsKeys, "redis": obsKeys}
 			for i, o := range path {
 				w := m.Apply(o, ds[0])
 				for _, d := range ds {
 					cl, det := d.Exec(o, w)
 					if cl == "" {
-						cl, det = d.Observe(o, m, obsKeys)
+						cl, det = d.Observe(o, m, obs[d.Name])
 					}
 					if cl != "" {
+						if _, known := run.IsKnown(cl); known {
+							knownMu.Lock()
+							knownSeen[cl] = true
+							knownMu.Unlock()
+							if d.Name == "redis" {
+								obs["redis"] = keys // stop observing the alias "c"
+							}
+							continue
+						}
 						if i != len(path)-1 {
-							// a known finding earlier on the path: do not judge what follows it
 							return "", nil, nil
 						}
 						return "", nil, &bfs.Violation{Sig: cl, Detail: det}
@@ -108,6 +126,9 @@ func main() {
 		},
 	}
 	st, found := bfs.Explore(sp)
+	for k := range knownSeen {
+		run.Violation(k, "", nil)
+	}
 	for _, f := range found {
 		var ps []string
 		for _, o := range f.Path {
